@@ -35,7 +35,8 @@ META = {
                "'frame observed' messages carrying any 16- / 24-bit frame through the receiver with the real "
                "decoder behind it (all other cases use a recording decode stub)",
                "two live receivers of a kind: a message to one split at a solver-chosen position around a "
-               "whole message to the other"],
+               "whole message to the other",
+               "a burst of 80 observed-frame messages in one read"],
     "stubs": ["isinstance/int/bytes shims", "EnumProxy for LubaCmd / SCIRS232Code / ErrorType",
               "command.Command.from_frame replaced by a recording stub inside dali.driver.serial"],
     "outside": ["streams containing a checksum-valid frame whose payload is malformed for its type (set aside "
